@@ -15,6 +15,7 @@ import Bubus.Proofs.Expect
 import Bubus.Proofs.Wal
 import Bubus.Proofs.Finished
 import Bubus.Proofs.InlineDone
+import Bubus.Proofs.PathReach
 namespace Bubus.Examples
 open Bubus
 
@@ -162,5 +163,11 @@ example : ((run {} (timeoutRun.take 26)).map fun w => ((w.inst 1).exec, (w.inst 
     still queued, is the one where the yield is *disabled*) -/
 example : ((run {} (nested.take 14)).map fun w => ((w.bus 0).queue, (step w (.pollYield 0)).isSome, (step w (.take (.inst 0) 0 1)).isSome)) =
     some ([1], false, true) := by decide
+
+/-- non-vacuity of `C07_a_bus_processes_only_events_whose_path_lists_it` (`Proofs/PathReach.lean`): in the history `nested` bus 0 has
+    had events 0 and 1 in its queue, both list bus 0 in their path, and the open inline activation of instance 0 is for
+    event 1 on bus 0 -/
+example : ((run {} nested).map fun w => ((w.bus 0).enq, (w.ev 0).path, (w.ev 1).path, (w.act (.inst 0)).map fun A => (A.bus, A.ev))) =
+    some ([0, 1], [0], [0], some (0, 1)) := by decide
 
 end Bubus.Examples
